@@ -104,3 +104,13 @@ Definition pderiv (p : list R) : list R :=
 (** power-basis coefficients of a cubic Bézier coordinate *)
 Definition bez3 (a b c d : R) : list R :=
   [a; 3 * (b - a); 3 * (a - 2 * b + c); d - 3 * c + 3 * b - a].
+
+(** both directions: [P] on [a,b] against [Q] on [0,1] *)
+Definition two_sided (P : R -> Point R) (a b : R) (Q : R -> Point R) (eps : R) : Prop :=
+  within_one_sided P a b Q eps /\
+  forall u, 0 <= u <= 1 -> exists t, a <= t <= b /\ pdist2 (Q u) (P t) <= eps * eps.
+
+(** the source curve [P] on [0,1] and a list of cubics are within [eps] of each other (Hausdorff) *)
+Definition hausdorff_path (P : R -> Point R) (cubics : list (CubicBez R)) (eps : R) : Prop :=
+  (forall t, 0 <= t <= 1 -> exists c, In c cubics /\ exists u, 0 <= u <= 1 /\ pdist2 (P t) (cubic_eval c u) <= eps * eps) /\
+  (forall c, In c cubics -> forall u, 0 <= u <= 1 -> exists t, 0 <= t <= 1 /\ pdist2 (cubic_eval c u) (P t) <= eps * eps).
